@@ -87,7 +87,23 @@ def run_case(c):
             w.server.commands_mapping.pop("mlst")
         await cl.connect("127.0.0.1", W.CTL_PORT)
         await cl.login("u1", "x")
-        if c["cwd"]:
+        try:
+            # earlier operations of the same client session (what an operation does must not depend on them)
+            for pr in c.get("prior", []):
+                await cl.change_directory("/" + "/".join(pr["cwd"]))
+                if pr["op"] == "upload":
+                    await local_fill(cl.path_io, pathlib.Path("/loc/" + c["srcname"]), [(e["p"], e["k"], e["c"]) for e in c["src"]])
+                    await cl.upload(pathlib.Path("/loc/" + c["srcname"]), pr["dest"], write_into=pr["write_into"], block_size=c["block"])
+                elif pr["op"] == "remove":
+                    await cl.remove(pr["dest"])
+                elif pr["op"] == "list":
+                    await cl.list(pr["dest"], recursive=True)
+            if c.get("prior"):
+                rec["remote_mid"] = tree_entries(w.snapshot(), ["R"])
+        except Exception as e:  # noqa
+            rec["ok"] = False
+            rec["error"] = "prior: " + repr(e)
+        if c["cwd"] or c.get("prior"):
             await cl.change_directory("/" + "/".join(c["cwd"]))
         try:
             if c["op"] == "upload":
@@ -144,6 +160,24 @@ def gen_cases(tier, rng):
             cases.append({"op": "download", "src": entries, "srcname": "srcname", "source": "srcname", "dest": dest.lstrip("/") if dest.startswith("/") else dest,
                           "write_into": wi, "cwd": cwd, "remote_pre": rpre, "local_pre": rng.choice(pre_variants),
                           "block": rng.choice([2, 8192]), "fallback": rng.random() < 0.3})
+    # session histories: the same client has already uploaded (elsewhere, or here and removed it again) or listed before the
+    # measured upload; placement must not depend on that
+    for src in sh[3:] if tier != "quick" else rng.sample(sh[3:], 8):
+        entries = [ent(p, k, c) for p, k, c in src]
+        for dest, wi in (("d", False), ("d/e", True), ("d/e", False), ("", False)):
+            for cwd in ([], ["w"]):
+                for hist in ("elsewhere", "removed", "listed"):
+                    if tier == "quick" and rng.random() < 0.5:
+                        continue
+                    if hist == "elsewhere":
+                        prior = [{"cwd": ["v"], "op": "upload", "dest": dest, "write_into": wi}]
+                    elif hist == "removed":
+                        top = (parse(dest)[1] or ["srcname"])[0]
+                        prior = [{"cwd": cwd, "op": "upload", "dest": dest, "write_into": wi}, {"cwd": cwd, "op": "remove", "dest": top}]
+                    else:
+                        prior = [{"cwd": ["v"], "op": "list", "dest": ""}]
+                    cases.append({"op": "upload", "src": entries, "srcname": "srcname", "dest": dest, "write_into": wi, "cwd": cwd, "prior": prior,
+                                  "remote_pre": [ent(["v"], "d", None)], "block": 8192, "fallback": rng.random() < 0.3})
     for src in sh:
         entries = [ent(p, k, c) for p, k, c in src]
         if entries[0]["k"] != "d":
@@ -162,6 +196,8 @@ def gen_cases(tier, rng):
 def to_judge(c, rec):
     base = {"op": c["op"], "ok": rec["ok"] and not rec["hang"] and not rec["exc"], "cwd": c["cwd"], "write_into": c.get("write_into", False)}
     std_pre = [ent(["w"], "d", None)] + c["remote_pre"]
+    if "remote_mid" in rec:
+        std_pre = rec["remote_mid"]
     if c["op"] == "upload":
         a, s = parse(c["dest"])
         base.update({"dabs": a, "dsegs": s, "srcname": c["srcname"], "src": c["src"], "pre": std_pre, "post": rec["remote_post"]})
